@@ -32,7 +32,7 @@ from ..worlds import words as WW
 from comb_spec_searcher.rule_db import RuleDBForest
 
 ID = "C17"
-QUICK_RUNS = 1600
+QUICK_RUNS = 2400
 CHUNK = 20
 THOROUGH_BUDGET_S = 900
 WATCHDOG = 120.0
